@@ -32,15 +32,20 @@ import vlib
 
 SHAPES = {
     # must mirror Tendermint_sim4.cfg / Tendermint_sim7.cfg / Tendermint_trace4.cfg / Tendermint_trace7.cfg
-    "n4": {"nv": 4, "powers": [[1, 1, 1, 1], [2, 2, 2, 2], [2, 1, 1, 1]], "maxVal": 3, "nValid": 2,
+    "n4": {"nv": 4, "powers": [[1, 1, 1, 1], [2, 2, 2, 2], [2, 2, 0, 1]], "maxVal": 3, "nValid": 2,
            "maxRound": 2, "corr": [1, 2, 3], "byz": [4], "h0": 1, "propShift": 1},
     "n7": {"nv": 7, "powers": [[3, 2, 2, 1, 1, 1, 1], [6, 4, 4, 2, 2, 2, 2], [1, 1, 1, 1, 1, 1, 1]], "maxVal": 3,
            "nValid": 2, "maxRound": 2, "corr": [2, 3, 4, 5, 6, 7], "byz": [1], "h0": 1, "propShift": 5},
 }
-SHAPES1 = {"n1": {"nv": 4, "powers": [[1, 1, 1, 1], [2, 2, 2, 2], [2, 1, 1, 1]], "maxVal": 3, "nValid": 2, "maxRound": 3,
+SHAPES1 = {"n1": {"nv": 4, "powers": [[1, 1, 1, 1], [2, 2, 2, 2], [2, 2, 0, 1]], "maxVal": 3, "nValid": 2, "maxRound": 3,
                   "corr": [2], "byz": [1, 3, 4], "h0": 1, "propShift": 0}}      # Tendermint_sim1.cfg
-SIM = {"n4": ("Tendermint_sim4.cfg", 111), "n7": ("Tendermint_sim7.cfg", 151), "n1": ("Tendermint_sim1.cfg", 81)}
+SHAPES1["n2"] = {"nv": 2, "powers": [[1, 1], [3, 1]], "maxVal": 3, "nValid": 2, "maxRound": 2,
+                 "corr": [1, 2], "byz": [], "h0": 1, "propShift": 1}              # Tendermint_sim2.cfg
+SHAPES1["solo"] = {"nv": 1, "powers": [[1], [5]], "maxVal": 3, "nValid": 2, "maxRound": 2,
+                   "corr": [1], "byz": [], "h0": 1, "propShift": 1}               # Tendermint_sim_solo.cfg
+SIM = {"n2": ("Tendermint_sim2.cfg", 61), "solo": ("Tendermint_sim_solo.cfg", 31), "n4": ("Tendermint_sim4.cfg", 111), "n7": ("Tendermint_sim7.cfg", 151), "n1": ("Tendermint_sim1.cfg", 81)}
 ENGINE = "tendermint"
+NAMES = ("n4", "n7", "n1", "n2", "solo")
 SIM_PAR = 6   # parallel single-threaded TLC -simulate runs (overlapped with the exhaustive checks)
 
 
@@ -120,9 +125,11 @@ def run(ctx):
     # the single-threaded TLC simulations run in the background while the exhaustive checks use the workers
     sim_futures, pool = [], None
     if not only or "replay" in only:
-        nruns = {"n4": 8 if thorough else 2, "n7": 6 if thorough else 1, "n1": 10 if thorough else 3}
-        per_run = {"n4": 120, "n7": 80, "n1": 160} if thorough else {"n4": 50, "n7": 30, "n1": 50}
-        jobs = [(name, i) for name in ("n4", "n7", "n1") for i in range(nruns[name])]
+        nruns = {"n4": 8 if thorough else 2, "n7": 6 if thorough else 1, "n1": 10 if thorough else 3,
+                 "n2": 2 if thorough else 1, "solo": 2 if thorough else 1}
+        per_run = ({"n4": 120, "n7": 80, "n1": 160, "n2": 100, "solo": 100} if thorough else
+                   {"n4": 50, "n7": 30, "n1": 50, "n2": 40, "solo": 40})
+        jobs = [(name, i) for name in NAMES for i in range(nruns[name])]
 
         def sim(job):
             name, i = job
@@ -150,13 +157,13 @@ def run(ctx):
 
     # ------------------------------------------------------------------ replay (spec -> code)
     if not only or "replay" in only:
-        by_name = {"n4": [], "n7": [], "n1": []}
+        by_name = {name: [] for name in NAMES}
         for fut in sim_futures:
             name, bs = fut.result()
             by_name[name] += bs
         pool.shutdown()
         total = 0
-        for name in ("n4", "n7", "n1"):
+        for name in NAMES:
             behaviours = by_name[name]
             res = ctx.run_engine(binary, "TestTmReplay",
                                  {"cfg": dict(SHAPES, **SHAPES1)[name], "name": name, "behaviours": behaviours},
